@@ -1,12 +1,47 @@
 """C05 - equality, ordering and hashing follow the mathematical value in every type."""
+import os
+import sys
 import core
 from core import hx, gen_int, gen_mag
+
+# coq/gen/CmpGen.v (the whole bodies of FBig::eq, repr_cmp_same_base, rational repr_eq / repr_cmp, RBig::eq / abs_eq / hash,
+# the const ABS and arguments of every forwarding impl, the derive lists) and coq/gen/DigitsEstGen.v (the arms of
+# Repr::digits_ub / digits_lb) are regenerated from the Rust sources when this plug-in is imported, i.e. before the proof
+# phase of every run.  Float/FloatOrdDispatch.v, Ratio/RatioOrdGen.v, Float/DigitsUbProof.v prove C05's theorems over the
+# generated definitions and the oracle replays the generated bodies (asis).  Unparseable source is not an alarm: the
+# previous copy stays (marked STALE), the status goes into the evidence and the correspondence run alone ties the models.
+sys.path.insert(0, os.path.join(core.ROOT, "tools"))
+try:
+    import translate_c05_r3
+    GEN_STATUS = translate_c05_r3.generate(core.REPO, os.path.join(core.COQ, "gen"))
+except Exception as _ex:  # the generator itself broke: same fallback as an unparseable source
+    GEN_STATUS = {"CmpGen": "unparsed generator-failed: %s" % str(_ex)[:200], "DigitsEstGen": "unparsed generator-failed"}
+
+GEN_TIES = {
+    "CmpGen": "C05_fbig_eq_gen_is_model, C05_repr_cmp_gen_is_model, C05_q_repr_eq_gen_is_model, C05_q_repr_cmp_gen_is_model, "
+              "C05_rbig_gen_is_model, C05_derive_lists, C05_no_structural_hash, C05_fbig_ord_any_context, C05_relaxed_by_value",
+    "DigitsEstGen": "C05_digits_ub_contract, C05_digits_ub_hypothesis, C05_digits_ub32_is_gen, C05_float_cmp_with_f32_estimate",
+}
+
+
+def extra_phase(tier, seed, exes, oracle):
+    hist, samples = {}, []
+    for name in sorted(GEN_STATUS):
+        st = GEN_STATUS[name]
+        word = st.split(" ", 1)[0]
+        hist["translator_c05_r3:%s:%s" % (name, word)] = 1
+        samples.append({"fragment": "coq/gen/%s.v (tools/translate_c05_r3.py from float/src/cmp.rs, float/src/repr.rs, "
+                                    "rational/src/cmp.rs, rational/src/rbig.rs)" % name,
+                        "status": st,
+                        "tied_by": GEN_TIES[name] if word == "ok" else "correspondence run only (source not parsed; previous copy marked STALE)"})
+    return {"evaluations": 0, "hist": hist, "nontrivial": [], "samples": samples, "failures": []}
+
 
 ID = "C05"
 READY = True
 ORACLE = "c05"
 HARNESS_BIN = "c05"
-NCASES = {"quick": 7000, "thorough": 150000}
+NCASES = {"quick": 8000, "thorough": 160000}
 CASE_TIMEOUT = {"quick": 30, "thorough": 90}
 SHRINK = False  # the values of a case are tied to their route parameters (ones n, masks, ...): shrinking one breaks the case
 
@@ -29,22 +64,48 @@ LEVEL_TEXT = ("Machine-checked Coq theorems over faithful models of the comparis
               "C10's models), Context::mul/sqr/cubic (C03), trunc/fract/split_at_point/ceil/floor/round (C10), negation, the "
               "infinities - hence == is value equality and cmp = Equal iff == on anything they return (C05_float_eq_sound_on_producers); "
               "(rationals) repr_eq/repr_cmp with their bit-length filters equal cross multiplication (the second filter of repr_cmp is "
-              "proved dead code), RBig's structural ==/Hash is sound on reduced fractions. The models are tied to the code by a "
+              "proved dead code), RBig's structural ==/Hash is sound on reduced fractions. ROUND 3: (integers) the rest of the operator "
+              "surface at Repr level - DivRem/Div/Rem of magnitudes through C02's TRANSCRIBED kernels (two-word primitives, by word, by "
+              "double word, Knuth D, Burnikel-Ziegler over C01's multiplier; nothing assumed), the seven signed division forms through the "
+              "regenerated sign tables (panic exactly on a zero divisor), & | ^ ! << >> on IBig of either sign (C09's as-is kernels) - "
+              "return a canonical representation of the value the property demands for every word size >= 8 and all operands; a "
+              "canonical value is inline exactly when its magnitude fits a double word; the history theorem now ranges over all of "
+              "these (C05_full_history_values_compare: ==, cmp, abs_cmp, abs_eq, hash input by value for any two values of any finite "
+              "history); (floats) Context::add/sub and the four operator bodies, div, inv, sqrt, FBig * /, FBig op primitive (C03's "
+              "models) end in Repr::new, which is idempotent on normalised pairs: their results are normalised, two routes to one finite "
+              "value give the SAME Repr; the whole bodies of FBig::eq and repr_cmp_same_base are REGENERATED from float/src/cmp.rs on "
+              "every run and proved equal to the as-is models for all inputs, with the const ABS and the arguments of every forwarding "
+              "impl: PartialOrd between any two rounding modes, Ord, AbsOrd of FBig and Ord of Repr read only the two Reprs, so they are "
+              "the value order for any precisions and modes (C05_fbig_ord_any_context, C05_fbig_cmp_ignores_context); FBig and Relaxed "
+              "have no Hash impl (regenerated fact; NumHash is C14's); (rationals) repr_eq, repr_cmp, RBig::eq/abs_eq/hash regenerated "
+              "whole and proved equal to the models; Relaxed (derives ==/Ord from Repr) compares by value on ANY representation "
+              "(= Qeq_bool / Qcompare, invariant under scaling by a common factor), RBig's structural == agrees with it on reduced "
+              "fractions, Equal iff ==, equal values hash alike; (digit estimate) the hypothesis |sig| < B^(digits_ub+1) of the float "
+              "theorems is now a THEOREM for the f32 code of Repr::digits_ub (arms regenerated from float/src/repr.rs, Flocq binary32 "
+              "multiplication/division, saturating cast): for EVERY log2 estimator meeting C12's contract (finite upper bound >= log2|sig|, "
+              "base lower bound in [1/2, log2 B]) and every significand below B^(2^24), even |sig| < B^digits_ub "
+              "(core::f32::consts::LOG10_2 >= log10 2 proved with CoqInterval's exp on plain Z); hence repr_cmp_same_base run with that "
+              "estimate is the value order (C05_float_cmp_with_f32_estimate). The models are tied to the code by a "
               "correspondence run that reads the real layout through a hook, checks canonical layout / normalisation / reducedness of "
               "every value built (the booleans evaluated are proved equivalent to the invariants) and replays the extracted models.")
 LEVEL_NOTE = ("Trusted: Coq kernel, extraction (FastZ.v), zarith, the harness and the thin OCaml driver. Modelled, not verified: the Rust "
-              "sources. Only compared at run time, not proved: (a) integer results of operations without an as-is Repr-level model "
-              "(division/remainder - C02's model works on values and its quotient enters through from_buffer -, gcd, roots, pow, radix "
-              "and byte conversion, bit ops on negative IBig) - the layout hook checks each such value; they are covered by the theorems only "
-              "under 'the result is stored through from_buffer/with_sign' (C05_store_value); "
-              "(b) float add/sub/div/sqrt/exp/ln/powi, f32/f64 and rational sources: C03's models of these are value-level "
-              "(they omit the final Repr::new), so their normalisation is checked on every run (new producer routes mulfac, muldivx, "
-              "divself, sqrsqrt, addtrunc..., fromstr, fromf64/f32, reprf64/f32, ratfloat, r_add/sub/aeq/seq/mul/div in the four ownership forms, "
-              "r_sqr...r_ln1p, r_ctx*) but not proved beyond 'the last step is "
-              "Repr::new'; the ln/exp route of convert_base (|exponent| > 38) is not modelled; (c) f32 digits_ub satisfies the "
-              "hypothesis of the float theorems; (d) the hasher call sequence. No open finding: ones(2*word bits) on the heap and the "
-              "float precision shortcut were repaired in /repo.")
-TECHNIQUE = "Coq proof over as-is models of the comparison/representation code + extracted-model correspondence run with layout hook"
+              "sources. Only compared at run time, not proved: (a) integer results of gcd, roots, pow, radix and byte conversion: "
+              "the layout hook checks each such value; they are covered by the theorems only under 'the result is stored through "
+              "from_buffer/with_sign' (C05_store_value / C05_store_fit). For division and the signed bit operators / shifts the kernels "
+              "are the transcriptions of C02 / C09, but their results reach the Repr through the same generic last step (store_fit = "
+              "from_buffer + with_sign on the value) rather than through a word-by-word model of the buffer the operation leaves; the new "
+              "op `iop` compares value, length and inline flag of every output with that composed model on each run; "
+              "(b) float exp/ln/powi, f32/f64 and rational sources, and for add/sub/div/sqrt 'the pair C03's model returns is what the "
+              "code hands to Repr::new' (C03's own correspondence run compares those pairs; here the normalisation of every such result "
+              "is checked per case on the routes r_add/sub/aeq/seq/mul/div in the four ownership forms, r_sqr...r_ln1p, r_ctx*); the "
+              "ln/exp route of convert_base (|exponent| > 38) is not modelled; (c) the log2 estimators themselves (C12's property; the op "
+              "`dub` checks the two hypotheses of C05_digits_ub_contract on the reported f32 estimates of every case) and significands of "
+              "B^(2^24) or more; (d) the hasher call sequence. Regenerated bodies: if float/src/cmp.rs, float/src/repr.rs or "
+              "rational/src/cmp.rs is rewritten outside the translator's grammar the last good copy of coq/gen/CmpGen.v / DigitsEstGen.v "
+              "is kept (status `unparsed` in the evidence) and the correspondence run alone ties the models. No open finding: "
+              "ones(2*word bits) on the heap and the float precision shortcut were repaired in /repo.")
+TECHNIQUE = ("Coq proof over as-is models of the comparison/representation code (comparison bodies and digit-estimate arms regenerated "
+             "from the Rust source on every run) + extracted-model correspondence run with layout hook")
 RULE = ("cases = 2 or 3 values each produced along a route (from_words, padded words, +/- cancel in three operator forms, shifts, "
         "mul/div, div_rem, rem, clone, clone_from into larger/smaller buffers, bytes, radix text, ones, primitives, via IBig, bit set/clear, "
         "split_bits, masks; floats: from_repr, from_parts, scaled significands, with_precision, arithmetic at unlimited precision, "
@@ -58,13 +119,27 @@ RULE = ("cases = 2 or 3 values each produced along a route (from_words, padded w
         "canonicalize) x value classes {0, 1, 2, 3, 4, threshold+-1 words, 2^64k +- 1, all-ones} x relations {same value, +-1, negated, "
         "other length, shortcut boundaries exp+precision+{-1..2}, exp+digits+{-1..1}, bit-length filter edges} x all pairs compared with "
         "every impl (==, !=, cmp, partial_cmp, <, <=, >, >=, abs_cmp, abs_eq, mixed IBig/UBig and RBig/Relaxed forms, Hash input). "
+        "Round 3: op iop = one operation (IBig / % div_rem and the Euclidean forms, UBig div_rem/div/rem, & | ^ in the four ownership "
+        "forms, ! on value and reference, >> << on value and reference) x operands {edges, 1..5 words, either sign} x relations "
+        "{zero divisor, quotient of exactly 2/3 words, exact and nearly exact division, equal / negated / complemented operands, masks at "
+        "word boundaries, shifts down to exactly 2/3 words and past the top bit}: value against the specification, layout canonical, and "
+        "value/length/inline flag against the composed Repr-level model; op dub = Repr::digits_ub / digits_lb for bases 2, 3, 7, 10, 16, "
+        "100, 65535 x significands {B^k - 1, B^k, B^k + 1 for k up to 3000 (20000 thorough), 1..40 random words, 2^k +- 1}: "
+        "|sig| < B^digits_ub, digits_lb <= digits, the reported estimates meet the contract, and the regenerated arms on Flocq's binary32 "
+        "reproduce digits_ub bit for bit. "
         "A case is non-trivial when the oracle checked layout, value and every pair answer; distinct = distinct case texts.")
 EXPLANATION = ("Theorems (coq/props/C05.v) are about models transcribed from integer/src/{repr,cmp,buffer}.rs, float/src/{cmp,repr,utils}.rs, "
                "rational/src/cmp.rs. Each run builds values along many routes in the real library, reads capacity/len/inline through "
                "dashu_int::verif_hooks::repr_layout_*, checks the canonical-layout invariant, the value, and every comparison/hash-input "
                "answer against the value-level specification; the extracted as-is models are replayed on the reported representation "
                "(model_fidelity). coq/theories/Int/ReprOrdArith.v and Float/FloatOrdProducers.v import the operator / producer models "
-               "of C01, C09, C03, C08, C10 and prove that their results satisfy the invariants the comparison theorems need.")
+               "of C01, C09, C03, C08, C10 and prove that their results satisfy the invariants the comparison theorems need. Round 3: "
+               "Int/ReprOrdArith2.v (division through C02's transcribed kernels and sign tables, signed bit operators and shifts of C09), "
+               "Float/FloatOrdProducers2.v (add/sub/div/inv/sqrt and the operator bodies of C03), Float/FloatOrdDispatch.v and "
+               "Ratio/RatioOrdGen.v (theorems over coq/gen/CmpGen.v, the comparison bodies regenerated from float/src/cmp.rs and "
+               "rational/src/cmp.rs by tools/translate_c05_r3.py at plug-in import; the oracle replays these generated bodies), "
+               "Float/DigitsUbProof.v + Float/Log10Const.v (the f32 digit estimate, arms regenerated into coq/gen/DigitsEstGen.v, "
+               "binary32 arithmetic = Flocq's, Cross/XLog2Model.v).")
 TRUSTED_BASE = [
     "Coq 8.16.1 kernel (coqc); vm_compute only in closed examples and the refutation witnesses",
     "extraction: ExtrOcamlBasic + ExtrOcamlZBigInt + coq/extract/FastZ.v; OCaml 4.13.1 + zarith 1.12; oracle/common.ml, oracle/driver_c05.ml",
@@ -73,8 +148,18 @@ TRUSTED_BASE = [
     "IBig arithmetic used inside float/rational comparison (shl_digits, products) is taken at its Z meaning (C01/C09)",
     "the as-is operator / producer models of C01 (Int/RingOps.v), C09 (Int/BitsKernels.v), C03 (Float/Model.v), C08 (Float/TextIoModel.v), "
     "C10 (Float/RoundOpsModel.v) are those properties' transcriptions of the Rust code; their fidelity is established by those checks",
-    "Repr::digits_ub bounds the significand (|sig| < B^(digits_ub+1), hypothesis of the float theorems): not proved for the f32 estimate, "
-    "but asserted by the oracle on the estimate reported for every float of every run",
+    "Repr::digits_ub bounds the significand (|sig| < B^(digits_ub+1), hypothesis of the float theorems): proved for the f32 code "
+    "(C05_digits_ub_contract) relative to the contract of the log2 estimators (C12: upper bound of the significand >= log2|sig|, lower "
+    "bound of the base in [1/2, log2 B]) for |sig| < B^(2^24); the oracle still asserts it on the estimate reported for every float of every run "
+    "and checks the contract on the f32 estimates reported by the op dub",
+    "f32 arithmetic of digits_ub = Flocq's binary32 (Bmult, Bdiv, mode_NE; Cross/XLog2Model.v of C14); `as usize` = truncation "
+    "toward zero, saturating; usize is 64 bits",
+    "tools/translate_c05_r3.py (tokenizer/parser of tools/translate.py + a typed continuation-style emitter; `as T` casts are dropped: "
+    "exponents and digit counts are read as integers) -> coq/gen/CmpGen.v, coq/gen/DigitsEstGen.v at plug-in import; reports unparsed "
+    "and keeps the last good copy when the source is rewritten; the reading of the method / field atoms (is_infinite, sign, cmp, abs_cmp, "
+    "bit_len, abs_diff, shl_digits, Sign * Ordering ...) as their Gallina counterparts is a fixed table in that script",
+    "the as-is division kernels and sign tables of C02 (Int/DivSrcInst.v, Int/DivSpec.v) and the signed bit / shift kernels of C09 "
+    "(Int/BitsKernels.v) are those properties' transcriptions; C03's Float/AddModel.v, Float/DivMulModel.v likewise",
 ]
 ASSUMPTIONS = [
     "64-bit words in the correspondence run (the integer theorems hold for every word size w > 0)",
@@ -628,11 +713,101 @@ def rat_case(rng, tier):
     return " ".join(toks)
 
 
+# ------------------------------------------------------------------------------------------------ round 3
+IOPS = ["div", "rem", "divrem", "diveu", "remeu", "divremeu", "udivrem", "udiv", "urem",
+        "and_vv", "and_vr", "and_rv", "and_rr", "or_vv", "or_vr", "or_rv", "or_rr", "xor_vv", "xor_vr", "xor_rv", "xor_rr",
+        "not", "notref", "shr", "shrref", "shl", "shlref"]
+
+
+def iop_operand(rng, tier):
+    k = rng.below(10)
+    if k < 3:
+        v = rng.choice(EDGE)
+    elif k < 7:
+        v = gen_mag(rng, rng.choice([1, 2, 2, 3, 3, 4, 5]))
+    else:
+        v = abs(gen_int(rng, tier, signed=False))
+    return v * rng.choice([1, -1])
+
+
+def iop_case(rng, tier):
+    """one operation; the operands sit at the inline/heap boundary, results cross it in both directions"""
+    op = rng.choice(IOPS)
+    a = iop_operand(rng, tier)
+    if op.startswith("sh") :
+        b = rng.choice([0, 1, 63, 64, 65, 127, 128, 129, 191, 192, 200, rng.below(300)])
+        if op.startswith("shr") and rng.chance(1, 3):
+            # exactly down to two / three words, and all bits out (-1 resp. 0 remain)
+            b = max(0, abs(a).bit_length() - rng.choice([128, 129, 127, 64, 1, 0, -1]))
+        return "iop %s %s %s" % (op, hx(a), hx(b))
+    k = rng.below(12)
+    if op in ("div", "rem", "divrem", "diveu", "remeu", "divremeu", "udivrem", "udiv", "urem"):
+        if k == 0:
+            b = 0  # documented panic
+        elif k < 3:
+            # quotient of exactly 2 / 3 words, remainder dropping below the divisor's length
+            b = (abs(a) >> rng.choice([128, 127, 129, 64, 192])) or 1
+            b *= rng.choice([1, -1])
+        elif k < 5:
+            q = iop_operand(rng, tier)
+            b = rng.choice([1, -1]) * (gen_mag(rng, rng.choice([1, 2, 3])))
+            a = q * b + rng.choice([0, 0, 1, -1, abs(b) - 1])  # exact and nearly exact divisions
+        elif k == 5:
+            b = a * rng.choice([1, -1])
+        elif k == 6:
+            b = rng.choice([1, -1, 2, -2, (1 << 64), -(1 << 64), (1 << 128), (1 << 64) - 1])
+        else:
+            b = iop_operand(rng, tier) or 1
+        return "iop %s %s %s" % (op, hx(a), hx(b))
+    # bit operators: results that shrink (and), cancel (xor with itself / complement), grow by a carry of the two's
+    # complement (or / and of negative numbers at a word boundary)
+    if k < 2:
+        b = a
+    elif k < 4:
+        b = -a
+    elif k < 6:
+        b = ~a
+    elif k < 8:
+        b = rng.choice([1, -1]) * ((1 << rng.choice([64, 128, 192])) - rng.choice([0, 1]))
+    else:
+        b = iop_operand(rng, tier)
+    return "iop %s %s %s" % (op, hx(a), hx(b))
+
+
+DUB_BASES = {2: "2", 3: "3", 7: "7", 10: "a", 16: "10", 100: "64", 65535: "ffff"}
+
+
+def dub_case(rng, tier):
+    """significands at every digit-count boundary B^k - 1, B^k, B^k + 1 and random ones of 1..40 words"""
+    b = rng.choice([2, 3, 7, 10, 10, 16, 100, 65535])
+    k = rng.below(10)
+    if k < 5:
+        e = rng.choice([1, 2, 3, 5, 8, 9, 10, 19, 20, 38, 39, 77, 100, rng.range(1, 400), rng.range(400, 3000 if tier == "quick" else 20000)])
+        s = b ** e + rng.choice([-1, 0, 1, 1, rng.below(1000)])
+        if s % b == 0:
+            s += 1  # Repr::new would strip the digits
+    elif k < 8:
+        s = gen_mag(rng, rng.choice([1, 1, 2, 2, 3, 4, 8, 40])) | 1
+        if s % b == 0:
+            s += 2
+    else:
+        s = (1 << rng.range(1, 2600)) + rng.choice([-1, 1])
+        if s % b == 0:
+            s += 2 if b != 2 else 1
+    if s % b == 0:
+        s = s * b + 1
+    return "dub %s %s" % (DUB_BASES[b], hx(s * rng.choice([1, -1])))
+
+
 def gen_cases(rng, tier, n):
     out = []
     while len(out) < n:
-        k = rng.below(100)
-        if k < 50:
+        k = rng.below(116)
+        if k >= 108:
+            out.append(dub_case(rng, tier))
+        elif k >= 100:
+            out.append(iop_case(rng, tier))
+        elif k < 50:
             out.append(int_case(rng, tier))
         elif k < 68:
             out.append(flt_case(rng, tier))
